@@ -18,7 +18,7 @@ from ..ref import sem
 PROPERTY = "C03"
 TECHNIQUE = "frame-isolation monitor at every executed CALL (VM hook) + differential VM run vs reference interpreter on checksumming call graphs"
 LEVEL_TEXT = ("Directed families (factorial, fibonacci, mutual recursion with modified parameters and surviving locals; by-value for every "
-              "parameter kind x write form x call site; mixed arity; overload sets in several declaration orders) run completely; "
+              "parameter kind x write form x call site; mixed arity; overload sets in several declaration orders; unnamed parameters before / between / after named ones) run completely, each also with its callees compiled as a separate library that the callers import; "
               "seeded random call graphs with scalar, vector and matrix parameters, self-recursion and loops around calls. At every "
               "executed CALL the VM hook compares the caller's arguments and named locals before and after by value; results are "
               "compared with the reference interpreter.")
